@@ -1286,3 +1286,41 @@ func atomSaysIsCall(f *Func, a Atom, isCall *types.Func, want bool) bool {
 	}
 	return false
 }
+
+// entryRefusesModern: every static call of fn in its package is unreachable when the protocol version tests of the calling
+// function are evaluated for a version >= 2026-07-28 (the callee is a legacy-only path such as the resuming GET).
+func (c *Ctx) entryRefusesModern(fn *Func) bool {
+	if fn == nil || fn.Obj == nil {
+		return false
+	}
+	v728 := c.P.LookupObj(pM, "protocolVersion20260728")
+	n := 0
+	for _, f := range c.P.SDKFuncs() {
+		if f.Pkg != fn.Pkg {
+			continue
+		}
+		for _, holder := range append([]*Func{f}, f.AllLits()...) {
+			for _, call := range holder.CallsIn(holder.Body, fn.Obj, false) {
+				n++
+				g := holder.Graph()
+				reach := g.ReachUnder(func(e ast.Expr) tri {
+					_, y, op, ok := binaryCmp(e)
+					if !ok || v728 == nil || holder.ObjOf(y) != v728 {
+						return triUnknown
+					}
+					switch op {
+					case token.LSS:
+						return triFalse
+					case token.GEQ:
+						return triTrue
+					}
+					return triUnknown
+				}, nil)
+				if reach[g.VertexOf(call)] {
+					return false
+				}
+			}
+		}
+	}
+	return n > 0
+}
